@@ -15,16 +15,26 @@
    which all rows agree, +-1 column, quantised column, duplicated rows; every b incl. 2b+1 = m), and
    MANY-ROW matrices for Krum (m = 27, 40 in quick; small integer spread, block fault sequences with
    seed-determined victims, f sampled over its range, every k; selection via MustIn/MayIn).
+   HISTORIES (HistSpec, a second configuration of the same module): an aggregator is an OBJECT; what its
+   n-th call must return depends on its parameters and on the n-th matrix only (HistExpected, HistPerCall).
+   All histories of 3 calls (thorough: also 4) over the steps: a row corrupted / the rows the previous call
+   selected replaced by outliers / corrupted rows honest again / the last row disappears (possibly too few
+   rows: rejected) and comes back, honest or corrupted / dtype changed and back / same matrix again.
 2. S->C: EVERY reachable (matrix, parameter) is run on the real aggregators in float32 and float64, at
    three power-of-two scales and on top of the common offsets 0, 2^17, 2^39 (large common mean + small
    spread; the exact results are those of the spread matrix): TrimmedMean must equal TLC's rational
    (4 eps) and lie in the honest range; Krum's weights must be 1/k on exactly k rows forming a
    selection TLC allows and the output their plain average; too few rows must be rejected, enough
-   rows must not.
+   rows must not.  Every exported history is run on ONE TrimmedMean(b) object resp. ONE Krum(f, k) object per
+   k <= m0 + 1 (weights of each call captured by a forward hook), every call judged against TLC's expectation
+   for the matrix of that call.
 3. C->S: random larger instances (m <= 8, n <= 5, entries up to 99 and +-2^39, random corruptions,
    tie-heavy columns for TrimmedMean) and many-row Krum instances (26..40 rows, random large offset +
    small spread, several k per matrix) are recorded from the real aggregators and validated by TLC
-   (TraceRobust) with the same operators.
+   (TraceRobust) with the same operators.  Random HISTORIES of 3..6 calls on one object (4..8 rows at the
+   first call; the next matrix is derived from what the previous call selected; rows dropped / appended,
+   dtype and scale changed and back) are recorded call by call; TraceRobust validates every call from its own
+   matrix, checks that the log is a history and counts the calls whose decided result had to change.
 """
 
 from __future__ import annotations
@@ -89,6 +99,49 @@ def _fmt_off(o: dict, sexp: int) -> str:
     return " + ".join(parts) or "0"
 
 
+def judge_call(kind: str, par: int, rec: dict, J, dtype: str, e: int, off: tuple, sexp: int, where: str, objs=None):
+    """One call of TrimmedMean(par) / of Krum(par, k) for every k of rec["krum"] on the tensor J, judged against
+    TLC's expectation `rec` for THIS matrix (keys status, tm, hmin, hmax, krum: a Scenario of Robust.tla or one
+    call of a HistoryScenario).  objs: None = a fresh object per call; otherwise the objects of a history
+    ({0: TrimmedMean} resp. {k: Krum(par, k)}).  -> ([(clause, k, what)], number of calls made)"""
+    finds, evals, m = [], 0, rec["m"]
+    if kind == "tm":
+        exc, out = rr.tm_observe(par, J, objs[0] if objs else None)
+        evals += 1
+        if rec["status"] == "reject":
+            if exc == "none":
+                finds.append(("too_few_rows_not_rejected", None, f"TrimmedMean({par}) accepted a matrix with {m} rows ({where})"))
+            return finds, evals
+        if exc != "none":
+            finds.append(("raised_although_enough_rows", None,
+                          f"TrimmedMean({par}) raised {exc} on a matrix with {m} >= {2 * par + 1} rows ({where})"))
+            return finds, evals
+        # TrimmedMean(J + o) = TrimmedMean(J) + o and the honest range moves with o (OffsetInvariant)
+        expected = [rr.exact_value(c, sexp, e, off) for c in rec["tm"]]
+        shift = Fraction(off[0]) + Fraction(off[1]) * Fraction(2) ** sexp
+        lo = [(Fraction(v) + shift) * Fraction(2) ** e for v in rec["hmin"]]
+        hi = [(Fraction(v) + shift) * Fraction(2) ** e for v in rec["hmax"]]
+        cl, det = rr.tm_compare(out, expected, lo, hi, dtype)
+        if cl != "none":
+            finds.append((cl, None, f"TrimmedMean({par}) returned {out.tolist()}: {det} ({where})"))
+        return finds, evals
+    for case in rec["krum"]:
+        k = case["k"]
+        obs = rr.krum_observe(par, k, J, objs[k] if objs else None)
+        evals += 1
+        if case["status"] == "reject":
+            if obs["exc"] == "none":
+                finds.append(("too_few_rows_not_rejected", k, f"Krum({par}, {k}) accepted a matrix with {m} rows ({where})"))
+            continue
+        cl = rr.krum_clause(obs, k, case)
+        if cl != "none":
+            want = (f"allowed selections {case['allowed']}" if case["allowed"] else
+                    f"every selection contains {case['must']} and lies within {case['may']}")
+            finds.append((cl, k, f"Krum(n_byzantine={par}, n_selected={k}) selected rows {obs['sel']} "
+                                 f"(exception {obs['exc']}; {want}) {obs['detail']} ({where})"))
+    return finds, evals
+
+
 def eval_scenario(scn: dict) -> dict:
     """Run one TLC scenario on the real aggregators (dtypes, scales, common offsets, all k)."""
     torch.set_num_threads(1)
@@ -100,43 +153,9 @@ def eval_scenario(scn: dict) -> dict:
         J = rr.build(scn["ja"], scn["jb"], sexp, e, dtype, off)
         where = (f"{dtype}, J = 2^{e} * ({_fmt_off(offs[oi], sexp)} + {_show(scn)}), "
                  f"corrupted rows {scn['corrupt']}")
-        if scn["kind"] == "tm":
-            exc, out = rr.tm_observe(par, J)
-            evals += 1
-            if scn["status"] == "reject":
-                if exc == "none":
-                    finds.append(("too_few_rows_not_rejected", None, dtype, e, oi,
-                                  f"TrimmedMean({par}) accepted a matrix with {m} rows ({where})"))
-                continue
-            if exc != "none":
-                finds.append(("raised_although_enough_rows", None, dtype, e, oi,
-                              f"TrimmedMean({par}) raised {exc} on a matrix with {m} >= {2 * par + 1} rows ({where})"))
-                continue
-            # TrimmedMean(J + o) = TrimmedMean(J) + o and the honest range moves with o (OffsetInvariant)
-            expected = [rr.exact_value(c, sexp, e, off) for c in scn["tm"]]
-            shift = Fraction(off[0]) + Fraction(off[1]) * Fraction(2) ** sexp
-            lo = [(Fraction(v) + shift) * Fraction(2) ** e for v in scn["hmin"]]
-            hi = [(Fraction(v) + shift) * Fraction(2) ** e for v in scn["hmax"]]
-            cl, det = rr.tm_compare(out, expected, lo, hi, dtype)
-            if cl != "none":
-                finds.append((cl, None, dtype, e, oi, f"TrimmedMean({par}) returned {out.tolist()}: {det} ({where})"))
-        else:
-            for case in scn["krum"]:
-                k = case["k"]
-                obs = rr.krum_observe(par, k, J)
-                evals += 1
-                if case["status"] == "reject":
-                    if obs["exc"] == "none":
-                        finds.append(("too_few_rows_not_rejected", k, dtype, e, oi,
-                                      f"Krum({par}, {k}) accepted a matrix with {m} rows ({where})"))
-                    continue
-                cl = rr.krum_clause(obs, k, case)
-                if cl != "none":
-                    want = (f"allowed selections {case['allowed']}" if case["allowed"] else
-                            f"every selection contains {case['must']} and lies within {case['may']}")
-                    finds.append((cl, k, dtype, e, oi,
-                                  f"Krum(n_byzantine={par}, n_selected={k}) selected rows {obs['sel']} "
-                                  f"(exception {obs['exc']}; {want}) {obs['detail']} ({where})"))
+        fs, n = judge_call(scn["kind"], par, scn, J, dtype, e, off, sexp, where)
+        evals += n
+        finds += [(cl, k, dtype, e, oi, what) for cl, k, what in fs]
     if scn["kind"] == "tm" and scn["status"] == "ok" and scn["corrupt"]:
         nontrivial.append((_sid(scn), 0))
     if scn["kind"] == "krum":
@@ -147,6 +166,71 @@ def eval_scenario(scn: dict) -> dict:
                 elif scn["corrupt"] and case["k"] < m:
                     nontrivial.append((_sid(scn), case["k"]))
     return {"finds": finds, "evals": evals, "amb": amb, "nontrivial": nontrivial}
+
+
+# ----------------------------------------------------------------------------- S->C, histories
+def _hid(h: dict) -> str:
+    acts = ">".join(c["act"] for c in h["calls"][1:])
+    dg = format(zlib.crc32(json.dumps([[c["ja"], c["jb"], c["d"]] for c in h["calls"]]).encode()) & 0xFFFFFFFF, "08x")
+    return f"hist:{h['kind']}:m0={h['m0']}:par={h['par']}:{acts}:H={dg}"
+
+
+def all_hist_combos(h: dict) -> list:
+    """every (power-of-two scale, common offset) in which ALL calls of the history are exactly representable"""
+    ds = {c["d"] for c in h["calls"]}
+    return [(x, oi) for oi, o in enumerate(h["offs"]) if ds <= set(o["dtypes"]) for x in h["exps"]]
+
+
+def eval_history(h: dict) -> dict:
+    """Run one TLC history: ONE object (TrimmedMean(b); Krum(f, k) for every k <= m0 + 1) is passed through the
+    calls of the history, each call is judged against TLC's expectation for the matrix of that call."""
+    torch.set_num_threads(1)
+    finds, evals, nontrivial = [], 0, []
+    sexp, par, kind, offs = h["sexp"], h["par"], h["kind"], h["offs"]
+    for e, oi in (h.get("_combos") or all_hist_combos(h)):
+        off = (offs[oi]["a"], offs[oi]["b"])
+        objs = ({0: rr.AggObject("tm", par)} if kind == "tm" else
+                {k: rr.AggObject("krum", par, k) for k in range(1, h["m0"] + 2)})
+        for n, c in enumerate(h["calls"], 1):
+            J = rr.build(c["ja"], c["jb"], sexp, e, c["d"], off)
+            where = (f"call {n} of {len(h['calls'])} on the same object ({' > '.join(x['act'] for x in h['calls'][:n])}): "
+                     f"{c['d']}, J = 2^{e} * ({_fmt_off(offs[oi], sexp)} + {_show(dict(c, sexp=sexp))}), "
+                     f"corrupted rows {c['corrupt']}")
+            fs, ne = judge_call(kind, par, c, J, c["d"], e, off, sexp, where, objs)
+            evals += ne
+            finds += [(cl, k, n, e, oi, what) for cl, k, what in fs]
+    for n, ch in enumerate(h["changed"], 1):
+        if ch:
+            nontrivial.append((_hid(h), n))
+    return {"finds": finds, "evals": evals, "nontrivial": nontrivial}
+
+
+def _eval_hist_safe(h):
+    try:
+        return eval_history(h)
+    except Exception as ex:                                   # noqa: BLE001  (machinery)
+        return {"err": f"{type(ex).__name__}: {ex}"}
+
+
+def replay_histories(ctx: Ctx, hs: list) -> None:
+    if len(hs) > 1:                     # a single history (--replay) is run on all presentations
+        for i, h in enumerate(hs):
+            cs = all_hist_combos(h)
+            h["_combos"] = sorted({cs[i % len(cs)], cs[(i + len(cs) // 2 + 1) % len(cs)]})
+    results = pmap(_eval_hist_safe, hs, chunksize=16)
+    for h, res in zip(hs, results):
+        if "err" in res:
+            raise MachineryError(f"history replay failed outside the code under test: {res['err']}")
+        ctx.evaluations += res["evals"]
+        ctx.traces += 1
+        for nt in res["nontrivial"]:
+            ctx.nontrivial(nt)
+        for cl, k, n, e, oi, what in res["finds"]:
+            ctx.count("violating_observations")
+            if len(ctx.violations) >= 100:
+                continue
+            key = f"{cl}:{_hid(h)}:call={n}:k={k}:e={e}:o={oi}"
+            ctx.violation(key, what, {"kind": "history", "history": {kk: v for kk, v in h.items() if kk != "_combos"}})
 
 
 def _eval_safe(scn):
@@ -312,40 +396,150 @@ def random_many_episode(i: int, rng: random.Random) -> dict:
             "dtype": dtype, "e": e}
 
 
-def observe_episode(ep: dict) -> dict:
+def observe_episode(ep: dict, objs=None) -> dict:
+    """objs: None = fresh objects; otherwise the objects of the history this call belongs to"""
     torch.set_num_threads(1)
     ep = dict(ep)
     ep.setdefault("oa", 0)
     ep.setdefault("ob", 0)
+    ep.setdefault("h", 0)
+    ep.setdefault("pos", 1)
     if "ks" not in ep:                                           # replay files written before `ks`
         ep["ks"] = [ep["k"]] if ep["kind"] == "krum" else []
     J = rr.build(ep["ja"], ep["jb"], S_EXP, ep["e"], ep["dtype"], (ep["oa"], ep["ob"]))
     out = dict(ep, exc="none", out=[], calls=[], detail="")
     if ep["kind"] == "tm":
-        exc, vec = rr.tm_observe(ep["par"], J)
+        exc, vec = rr.tm_observe(ep["par"], J, objs[0] if objs else None)
         out["exc"] = exc
         if vec is not None:
             out["out"] = [rr.rationalise(float(x), ep["e"], ep["dtype"]) for x in vec.to(torch.float64)]
             out["detail"] = f"returned {vec.tolist()}"
     else:
         for k in ep["ks"]:
-            obs = rr.krum_observe(ep["par"], k, J)
+            obs = rr.krum_observe(ep["par"], k, J, objs[k] if objs else None)
             out["calls"].append({"k": k, "exc": obs["exc"], "sel": obs["sel"], "wok": obs["wok"],
                                  "avgok": obs["avgok"], "detail": obs["detail"]})
     return out
 
 
-def _observe_safe(ep):
+def _history_objects(kind: str, par: int, ks: list) -> dict:
+    return {0: rr.AggObject("tm", par)} if kind == "tm" else {k: rr.AggObject("krum", par, k) for k in ks}
+
+
+def history_plan(hid: int, ep0: int, rng: random.Random) -> dict:
+    """a random history on ONE object: parameters only; the matrices are generated call by call (the rows the
+    previous call SELECTED are the preferred victims of the next corruption), see run_history"""
+    m = rng.choice([4, 5, 5, 6, 6, 7, 8])
+    kind = "tm" if rng.random() < 0.35 else "krum"
+    if kind == "tm":
+        par, ks = rng.randint(0, (m - 1) // 2), []
+    else:
+        par = rng.randint(0, m - 3)
+        ks = sorted({rng.randint(1, m), rng.randint(1, m + 1)})
+    return {"plan": True, "h": hid, "ep0": ep0, "seed": rng.getrandbits(32), "kind": kind, "par": par, "ks": ks,
+            "m": m, "n": rng.randint(1, 4), "dtype": rng.choice(DTYPES), "e": rng.choice([-20, 0, 10]),
+            "len": rng.randint(3, 6)}
+
+
+def run_history(plan: dict) -> list:
+    """Generate and record a history: between two calls the matrix changes in one of the ways of Robust!HNext
+    (rows selected by the previous call replaced by outliers, other rows corrupted, corrupted rows restored,
+    rows dropped / appended and back, dtype changed and back, same matrix again; at most `par` corrupted rows
+    at any time), occasionally the scale as well.  -> the logged episodes, in order."""
+    rng = random.Random(plan["seed"])
+    kind, par, ks, n, m0 = plan["kind"], plan["par"], plan["ks"], plan["n"], plan["m"]
+    mmax = m0 + 2
+    honest = [[rng.randint(-9, 9) for _ in range(n)] for _ in range(mmax)]
+    if kind == "tm" and rng.random() < 0.4:
+        for c in range(n):
+            if rng.random() < 0.7:
+                col = _tie_column(rng, mmax)
+                for r in range(mmax):
+                    honest[r][c] = col[r]
+    if all(v == 0 for r in honest[:max(1, m0 - 2)] for v in r):
+        honest[0][0] = 1
+    objs = _history_objects(kind, par, ks)
+    m, dtype, e = m0, plan["dtype"], plan["e"]
+    badrows: dict = {}                                 # row -> (a-row, b-row)
+    logged, prev_sel = [], []
+    for pos in range(1, plan["len"] + 1):
+        act = "first"
+        if pos > 1:
+            t = rng.random()
+            if par == 0 and t < 0.62:
+                t = 0.62 + 0.38 * rng.random()
+            if t < 0.5:                                # corrupt: selected rows (t < 0.35) or any rows
+                act = "corrupt_selected" if t < 0.35 and prev_sel else "corrupt"
+                nv = rng.randint(1, par)
+                pool = [r for r in (prev_sel if act == "corrupt_selected" else []) if r <= m]
+                rng.shuffle(pool)
+                others = [r for r in range(1, m + 1) if r not in pool]
+                rng.shuffle(others)
+                victims = (pool + others)[:nv]
+                keep = [r for r in badrows if r not in victims and r <= m]
+                rng.shuffle(keep)
+                for r in keep[max(0, par - len(victims)):]:       # the corrupted set MOVES
+                    del badrows[r]
+                ja = [list(badrows[r][0]) if r in badrows else list(honest[r - 1]) for r in range(1, m + 1)]
+                jb = [list(badrows[r][1]) if r in badrows else [0] * n for r in range(1, m + 1)]
+                _corrupt_rows(rng, ja, jb, victims, 10, 99)
+                for r in victims:
+                    badrows[r] = (ja[r - 1], jb[r - 1])
+            elif t < 0.62:
+                act = "restore"
+                cur = sorted(badrows)
+                for r in (rng.sample(cur, rng.randint(1, len(cur))) if cur else []):
+                    del badrows[r]
+            elif t < 0.78:
+                act = "resize"
+                if m != m0 and rng.random() < 0.7:
+                    m = m0
+                else:
+                    m = rng.choice([x for x in range(max(1, m0 - 2), mmax + 1) if x != m])
+                for r in [r for r in badrows if r > m]:
+                    del badrows[r]
+            elif t < 0.9:
+                act = "dtype"
+                dtype = "float32" if dtype == "float64" else "float64"
+            else:
+                act = "same"
+            if rng.random() < 0.2:
+                e = rng.choice([-20, 0, 10])
+        ja = [list(badrows[r][0]) if r in badrows else list(honest[r - 1]) for r in range(1, m + 1)]
+        jb = [list(badrows[r][1]) if r in badrows else [0] * n for r in range(1, m + 1)]
+        ep = {"ep": plan["ep0"] + pos - 1, "h": plan["h"], "pos": pos, "act": act, "kind": kind, "par": par, "ks": ks,
+              "ja": ja, "jb": jb, "oa": 0, "ob": 0, "bad": sorted(r for r in badrows if r <= m), "dtype": dtype, "e": e}
+        lg = observe_episode(ep, objs)
+        logged.append(lg)
+        if kind == "krum":
+            prev_sel = next((c["sel"] for c in lg["calls"] if c["exc"] == "none" and c["sel"]), [])
+        else:                                           # rows closest to the returned value in column 0
+            prev_sel = sorted(range(1, m + 1), key=lambda r: (abs(ja[r - 1][0] - sum(x[0] for x in ja) / m), r))[:max(1, par)]
+    return logged
+
+
+def observe_unit(unit) -> list:
+    """a unit of the trace log: one call on a fresh object / a planned history / a recorded history (replay)"""
+    if isinstance(unit, dict) and unit.get("plan"):
+        return run_history(unit)
+    if isinstance(unit, dict) and "episodes" in unit:
+        eps = unit["episodes"]
+        objs = _history_objects(eps[0]["kind"], eps[0]["par"], eps[0].get("ks", []))
+        return [observe_episode(ep, objs) for ep in eps]
+    return [observe_episode(unit)]
+
+
+def _observe_safe(unit):
     try:
-        return observe_episode(ep)
+        return observe_unit(unit)
     except Exception as ex:                                   # noqa: BLE001
-        return {"err": f"{type(ex).__name__}: {ex}"}
+        return [{"err": f"{type(ex).__name__}: {ex}"}]
 
 
 def _tlc_trace(path_eps: list) -> object:
     with tempfile.TemporaryDirectory(prefix="verif_c16_") as d:
         path = os.path.join(d, "episodes.json")
-        keep = ("ep", "kind", "par", "ja", "jb", "oa", "ob", "bad", "exc", "out")
+        keep = ("ep", "h", "pos", "dtype", "kind", "par", "ja", "jb", "oa", "ob", "bad", "exc", "out")
         ckeep = ("k", "exc", "sel", "wok", "avgok")
         with open(path, "w") as f:
             json.dump([dict({k: e[k] for k in keep}, calls=[{k: c[k] for k in ckeep} for c in e["calls"]])
@@ -357,22 +551,29 @@ def _ep_cost(e: dict) -> int:
     return len(e["ja"]) ** 3 if e["kind"] == "krum" else 1
 
 
-def validate_episodes(ctx: Ctx, eps: list) -> dict:
-    logged = pmap(_observe_safe, eps, chunksize=32)
-    for lg in logged:
-        if "err" in lg:
-            raise MachineryError(f"episode run failed outside the code under test: {lg['err']}")
+def validate_episodes(ctx: Ctx, units: list) -> dict:
+    """units: single calls on fresh objects (episode dicts) and histories on one object (history_plan / recorded
+    {"episodes": [...]}); every call is logged and the log is validated by TraceRobust"""
+    logged_units = pmap(_observe_safe, units, chunksize=16)
+    for lu in logged_units:
+        for lg in lu:
+            if "err" in lg:
+                raise MachineryError(f"episode run failed outside the code under test: {lg['err']}")
+    logged = [lg for lu in logged_units for lg in lu]
     # several TLC instances side by side (the cursor of one trace run is sequential); the many-row
-    # episodes are dealt out evenly
+    # episodes are dealt out evenly; the calls of a history stay together, in order
     nparts = 1 if len(logged) < 64 else 6
     parts = [[] for _ in range(nparts)]
-    for j, e in enumerate(sorted(logged, key=lambda e: (-_ep_cost(e), e["ep"]))):
-        parts[j % nparts].append(e)
+    for j, lu in enumerate(sorted(logged_units, key=lambda lu: (-sum(_ep_cost(e) for e in lu), lu[0]["ep"]))):
+        parts[j % nparts].extend(lu)
     from concurrent.futures import ThreadPoolExecutor
     with ThreadPoolExecutor(nparts) as pool:
         results = list(pool.map(_tlc_trace, parts))
-    total = {"episodes": 0, "accepted": 0, "rejected": 0, "ambiguous": 0, "calls": 0}
+    total = {"episodes": 0, "accepted": 0, "rejected": 0, "ambiguous": 0, "calls": 0, "histories": 0, "histcalls": 0,
+             "changed": 0, "malformed": 0}
     by_ep = {e["ep"]: e for e in logged}
+    if len(by_ep) != len(logged):
+        raise MachineryError("episode ids are not unique")
     for part, res in zip(parts, results):
         ctx.add_tlc(res)
         if res.violated:
@@ -382,6 +583,8 @@ def validate_episodes(ctx: Ctx, eps: list) -> dict:
             raise MachineryError(f"trace validation incomplete: {summ}")
         if summ["calls"] != sum(max(1, len(e["calls"])) for e in part):
             raise MachineryError(f"trace validation did not look at every call: {summ}")
+        if summ["malformed"] or res.prints.get("MALFORMED") or summ["histories"] != sum(1 for e in part if e["h"] and e["pos"] == 1):
+            raise MachineryError(f"the recorded log is not a sequence of histories: {summ} {res.prints.get('MALFORMED', [])[:3]}")
         for kk in total:
             total[kk] += summ[kk]
         for rj in res.prints.get("REJECT", []):
@@ -394,22 +597,40 @@ def validate_episodes(ctx: Ctx, eps: list) -> dict:
             mat = _show(scn) if len(e["ja"]) <= 8 else f"<{len(e['ja'])} x {len(e['ja'][0])} matrix, see the replay file>"
             key = (f"{rj['clause']}:trace:{e['kind']}:m={len(e['ja'])}:par={e['par']}:k={k}:J={_digest(scn)}:o={e['oa']},{e['ob']}"
                    f":{e['dtype']}:e={e['e']}")
-            ctx.violation(key, f"[trace rejected by TraceRobust, clause {rj['clause']}] {name} on {e['dtype']} J = 2^{e['e']} * "
+            ekeys = ("ep", "h", "pos", "kind", "par", "ja", "jb", "oa", "ob", "bad", "dtype", "e")
+            if e["h"]:
+                # the history up to the rejected call, on the object of this n_selected only
+                past = sorted((x for x in logged if x["h"] == e["h"] and x["pos"] <= e["pos"]), key=lambda x: x["pos"])
+                acts = ">".join(x.get("act", "?") for x in past[1:])
+                hd = format(zlib.crc32(json.dumps([[x["ja"], x["jb"], x["dtype"], x["e"]] for x in past]).encode()) & 0xFFFFFFFF, "08x")
+                key += f":call={e['pos']}:{acts}:H={hd}"
+                where = (f"call {e['pos']} on the same object ({' > '.join(['first'] + [x.get('act', '?') for x in past[1:]])}; "
+                         f"previous matrices in the replay file) ")
+                payload = {"kind": "history_episodes",
+                           "episodes": [dict({kk: x[kk] for kk in ekeys}, act=x.get("act", "?"), ks=[k] if k else []) for x in past]}
+            else:
+                where = ""
+                payload = {"kind": "episode", "episode": dict({kk: e[kk] for kk in ekeys}, ks=[k] if k else [])}
+            ctx.violation(key, f"[trace rejected by TraceRobust, clause {rj['clause']}] {where}{name} on {e['dtype']} J = 2^{e['e']} * "
                                f"({off} + {mat}), corrupted rows {e['bad']}: exception {call['exc']}, selected {call['sel']}, "
-                               f"{call['detail']}",
-                          {"kind": "episode", "episode": dict({kk: e[kk] for kk in ("ep", "kind", "par", "ja", "jb", "oa", "ob",
-                                                                                   "bad", "dtype", "e")}, ks=[k] if k else [])})
+                               f"{call['detail']}", payload)
     ctx.traces += total["accepted"] + total["rejected"]
     ctx.count("trace_krum_ambiguous", total["ambiguous"])
     ctx.count("trace_krum_calls", total["calls"])
-    for e in logged[:2] + [x for x in logged if len(x["ja"]) > 8][:1]:
+    ctx.count("trace_history_calls", total["histcalls"])
+    ctx.count("trace_history_calls_with_changed_result", total["changed"])
+    for e in logged[:2] + [x for x in logged if len(x["ja"]) > 8 and not x["h"]][:1]:
         ctx.sample({"trace_episode": {k: e[k] for k in ("kind", "par", "ja", "jb", "oa", "ob", "bad", "dtype", "e", "exc", "out", "calls")}})
+    hsample = next((x["h"] for x in logged if x["h"] and x["pos"] == 3), 0)
+    if hsample:
+        ctx.sample({"trace_history": [{k: e[k] for k in ("pos", "act", "kind", "par", "ja", "jb", "bad", "dtype", "e", "exc", "out", "calls")}
+                                      for e in logged if e["h"] == hsample]})
     return total
 
 
 # ----------------------------------------------------------------------------- entry point
-def _cfg_text(tier: str, seed: int) -> str:
-    text = (SPEC_DIR / f"MC_Robust_{tier}.cfg").read_text()
+def _cfg_text(tier: str, seed: int, fam: str = "") -> str:
+    text = (SPEC_DIR / f"MC_Robust_{fam}{tier}.cfg").read_text()
     n = 2
     base = (seed % 1000) * n + (0 if tier == "quick" else 100_000)      # thorough: other honest matrices
     seeds = ", ".join(str(base + i + 1) for i in range(n))
@@ -437,7 +658,11 @@ def run(ctx: Ctx, replay_path: str | None) -> None:
                 "fault sequence per (m, seed, f), f sampled over its range, every k).  Each case is presented in float32/float64 "
                 "at scales 2^-20, 1, 2^10 and on top of the common offsets 0, 2^17, 2^39 (exact selection = that of the spread "
                 "matrix); non-trivial = at least one corrupted row, and for Krum additionally k < m with an exactly decidable "
-                "selection")
+                "selection.  Histories: one case = one call of a history of calls on ONE object (Robust!HistSpec: all "
+                "histories of 3 calls, m0 = 5 quick / 4..6 and 4 calls for m0 = 5 thorough, over the steps corrupt a row / "
+                "corrupt the rows selected before / restore / last row away and back (honest or corrupted) / dtype and back "
+                "/ same; one TrimmedMean object, one Krum object per k <= m0 + 1); non-trivial = a call whose exactly "
+                "decided result differs from that of the previous call on the same object with the same m and dtype")
     ctx.assumptions += [
         "every matrix entry (offset + integer or integer * 2^39, times a power of two) is built in exact integer arithmetic "
         "and verified to be exactly representable in the dtype used",
@@ -450,11 +675,18 @@ def run(ctx: Ctx, replay_path: str | None) -> None:
         "matrix (Robust!OffsetInvariant)",
         "Krum output allowance 4 (k+2) eps sum|J_ij| / k; weights must be 1/k within 2 eps and exactly 0 elsewhere",
         "rejection = any exception raised by the call (the statement says 'reject'); observed type is ValueError",
+        "histories: the statement is read per call - the n-th call on an object returns what the statement says for the "
+        "n-th matrix, whatever the object was given before (Robust!HistPerCall); Krum's weights are those computed IN the "
+        "call (forward hook on aggregator.weighting)",
     ]
     if replay_path:
         p = json.load(open(replay_path))["payload"]
         if p["kind"] == "scenario":
             replay(ctx, [p["scenario"]])
+        elif p["kind"] == "history":
+            replay_histories(ctx, [p["history"]])
+        elif p["kind"] == "history_episodes":
+            validate_episodes(ctx, [{"episodes": p["episodes"]}])
         else:
             validate_episodes(ctx, [p["episode"]])
         return
@@ -462,8 +694,20 @@ def run(ctx: Ctx, replay_path: str | None) -> None:
     # (a) model check + export of every reachable (matrix, parameter)
     # (no -coverage: TLC's cost-model construction does not terminate in reasonable memory on this module;
     #  that the fault actions were taken is established from the exported states instead)
-    res = run_tlc("Robust", cfg_text=_cfg_text(ctx.tier, ctx.seed), workers="auto", seed=ctx.seed, timeout=1500)
+    # the history family (HistSpec: calls on ONE object) is a second configuration of the same module, explored
+    # side by side
+    from concurrent.futures import ThreadPoolExecutor
+    hfams = ["hist_"] if ctx.tier == "quick" else ["hist_", "hist4_"]      # thorough: also histories of 4 calls
+    with ThreadPoolExecutor(3) as pool:
+        futs = [pool.submit(run_tlc, "Robust", cfg_text=_cfg_text(ctx.tier, ctx.seed, fam), workers=4, seed=ctx.seed,
+                            timeout=1500) for fam in hfams]
+        res = run_tlc("Robust", cfg_text=_cfg_text(ctx.tier, ctx.seed), workers="auto", seed=ctx.seed, timeout=1500)
+        res_hs = [f.result() for f in futs]
     ctx.add_tlc(res)
+    for res_h in res_hs:
+        ctx.add_tlc(res_h)
+        if res_h.violated:
+            raise MachineryError(f"Robust.tla (HistSpec): {res_h.violated} violated in the model\n{res_h.cex[:2000]}")
     if res.violated:
         raise MachineryError(f"Robust.tla: {res.violated} violated in the model\n{res.cex[:2000]}")
     scns = res.prints.get("SCN", [])
@@ -489,16 +733,44 @@ def run(ctx: Ctx, replay_path: str | None) -> None:
     if not tie_cols:
         raise MachineryError("vacuous tie-heavy family: no column whose b-th smallest equals its b-th largest entry")
 
+    hists = [h for res_h in res_hs for h in res_h.prints.get("HIST", [])]
+    nstates_h = sum(res_h.distinct for res_h in res_hs)
+    hists.sort(key=lambda h: (h["kind"], h["m0"], h["par"], h["hs"], [(c["act"], c["d"], c["ja"], c["jb"]) for c in h["calls"]]))
+    hlen = max((len(h["calls"]) for h in hists), default=0)
+    acts = {}
+    for h in hists:
+        for c in h["calls"][1:]:
+            acts[(h["kind"], c["act"])] = acts.get((h["kind"], c["act"]), 0) + 1
+    ctx.extra["histories_exported"] = len(hists)
+    ctx.extra["history_steps"] = {":".join(k): v for k, v in sorted(acts.items())}
+    nchg = {kd: sum(1 for h in hists if h["kind"] == kd for ch in h["changed"] if ch) for kd in ("tm", "krum")}
+    nrej = sum(1 for h in hists for n, c in enumerate(h["calls"][:-1]) if c["status"] == "reject" and h["calls"][n + 1]["status"] == "ok")
+    ctx.extra["history_calls_whose_result_must_differ_from_the_previous_call"] = nchg
+    ctx.extra["history_calls_accepted_after_a_rejected_call"] = nrej
+    hneed = [(kd, a) for kd in ("tm", "krum") for a in ("corrupt", "corrupt_selected", "restore", "restore_all", "fewer_rows",
+                                                        "rows_back", "rows_back_corrupted", "dtype", "same")]
+    hmissing = [k for k in hneed if not acts.get(k)]
+    if (hmissing or hlen < 3 or not nchg["tm"] or not nchg["krum"] or not nrej
+            or len({h["calls"][0]["d"] for h in hists}) < 2
+            or nstates_h < len(hists) or any(len(h["calls"]) < 3 for h in hists)):
+        raise MachineryError(f"vacuous history family: missing steps {hmissing}, length {hlen}, calls with a changed result {nchg}, "
+                             f"accepted after rejected {nrej}, {len(hists)} histories / {nstates_h} states")
+
     # (b) specification -> code: all of them
     replay(ctx, scns)
+    replay_histories(ctx, hists)
     ctx.exhaustive = True
     ctx.extra["exhaustive_family"] = ("every state of Robust.tla for this seed's honest matrices: small/ties family: all fault "
                                       "sequences over the pattern set, all admissible (b), (f,k) and the first inadmissible "
-                                      "ones, m <= 6; many-row family: the sampled (m, f, fault sequence) states, every k")
+                                      "ones, m <= 6; many-row family: the sampled (m, f, fault sequence) states, every k; "
+                                      "history family: every history of HistSpec (all step sequences of the stated length)")
     pick = [s for s in scns if s["corrupt"] and s["status"] == "ok" and s["fam"] != "many"]
     many = [s for s in scns if s["corrupt"] and s["status"] == "ok" and s["fam"] == "many"]
     for s in (pick[0], pick[len(pick) // 2], pick[-1], many[0]):
         ctx.sample({"scenario": {k: v for k, v in s.items() if k != "_combos"}})
+    hpick = [h for h in hists if h["kind"] == "krum" and h["changed"][1] and h["changed"][2]]
+    if hpick:
+        ctx.sample({"history": {k: v for k, v in hpick[len(hpick) // 2].items() if k != "_combos"}})
     ncase = sum(1 for s in scns if s["kind"] == "krum" for c in s["krum"] if c["status"] == "ok")
     ncase_many = sum(1 for s in scns if s["fam"] == "many" for c in s["krum"] if c["status"] == "ok")
     ndec_many = sum(1 for s in scns if s["fam"] == "many" for c in s["krum"] if c["status"] == "ok" and len(c["allowed"]) == 1)
@@ -510,7 +782,11 @@ def run(ctx: Ctx, replay_path: str | None) -> None:
         raise MachineryError("fewer than half of the many-row Krum cases are exactly decidable: the family is too degenerate")
 
     # (c) code -> specification
-    n_ep, n_many = (400, 36) if ctx.tier == "quick" else (3000, 300)
+    n_ep, n_many, n_hist = (400, 36, 60) if ctx.tier == "quick" else (3000, 300, 600)
     eps = [random_episode(i + 1, rng) for i in range(n_ep)]
     eps += [random_many_episode(n_ep + i + 1, rng) for i in range(n_many)]
-    ctx.extra["trace_summary"] = validate_episodes(ctx, eps)
+    eps += [history_plan(i + 1, n_ep + n_many + 1 + 8 * i, rng) for i in range(n_hist)]
+    summ = validate_episodes(ctx, eps)
+    ctx.extra["trace_summary"] = summ
+    if summ["histories"] != n_hist or summ["changed"] < n_hist // 4:
+        raise MachineryError(f"vacuous recorded histories: {summ}")
